@@ -336,6 +336,25 @@ def broken_swaps(fn):
     return out
 
 
+def reduced_default_dtype(fn):
+    """[(statement, what)]: `dtype = <x>.dtype.char|kind|type` (or <x>.typecode()) executed when the parameter dtype is None"""
+    params = [a.arg for a in fn.args.args + fn.args.kwonlyargs]
+    if 'dtype' not in params:
+        return []
+    out = []
+    for st in iter_stmts(fn.body):
+        if not (isinstance(st, ast.If) and isinstance(st.test, ast.Compare) and norm(st.test) == 'dtype is None'):
+            continue
+        for s2 in st.body:
+            if isinstance(s2, ast.Assign) and len(s2.targets) == 1 and isinstance(s2.targets[0], ast.Name) and s2.targets[0].id == 'dtype':
+                v = s2.value
+                if isinstance(v, ast.Attribute) and v.attr in ('char', 'kind', 'type') and isinstance(v.value, ast.Attribute) and v.value.attr == 'dtype':
+                    out.append((s2, 'the one-letter code / scalar type (%s)' % norm(v)))
+                elif isinstance(v, ast.Call) and isinstance(v.func, ast.Attribute) and v.func.attr == 'typecode':
+                    out.append((s2, 'the one-letter code (%s)' % norm(v)))
+    return out
+
+
 def pure_method_names(src):
     """names that are methods of some class of the package and are nowhere a property, a class-level value or an assigned attribute"""
     methods, other = set(), set()
@@ -380,6 +399,7 @@ def run(ctx):
                  ('R-ATTRALIAS', 'a local bound to an array attribute of the receiver (x = self.A) is not updated with an in-place operator: that changes the receiver'),
                  ('R-STALEVAR', 'no loop body reads the loop variable of an earlier, finished loop (bound nowhere else): it would hold that loop\'s last value for every iteration'),
                  ('R-GUARDOBJ', 'a `K not in A.dimensions / A.variables` guard adds K to A itself, not to another file'),
+                 ('R-DTYPEFULL', 'the type a copy gets when none is requested is the complete dtype of the source, not its one-letter code'),
                  ('R-SIBLING', 'neighbouring statements that differ by one role swap (x/y, COL/ROW, tau0/tau1, llod/ulod, B/E) are adapted in every leaf')):
         if r not in ctx.rules:
             ctx.rule(r, d)
@@ -443,6 +463,9 @@ def run(ctx):
             for st_, a_, b_ in lints.guard_object_mismatch(fn):
                 ctx.violation(Finding('R-GUARDOBJ', rp, q, st_, 'the guard asks %s whether the name is missing but the name is then added to %s: when %s already has it nothing is created in %s' % (a_, b_, a_, b_)),
                               oid='generic:%s:guard:%s' % (q, norm(st_.test)[:40]))
+            for st_, red_ in reduced_default_dtype(fn):
+                ctx.violation(Finding('R-DTYPEFULL', rp, q, st_, 'the type used when no dtype is requested is reduced to %s: the item width of a fixed-width text type (S8, U5) is not part of it, so the copy '
+                                      'holds only the first character of every element' % red_), oid='generic:%s:dtype' % q)
             for a_, b_ in broken_swaps(fn):
                 ctx.violation(Finding('R-SWAP', rp, q, b_, '`%s` follows `%s`: it reads the element the first statement has just overwritten, so both positions end up with the same value' % (norm(b_)[:40], norm(a_)[:40])),
                               oid='generic:%s:%s' % (q, norm(b_)[:40]))
@@ -451,7 +474,7 @@ def run(ctx):
                 ctx.violation(Finding('R-ONESHOT', rp, q, api.stmt_of(use), '%s is a one-shot iterator (%s) and is consumed again here: the second pass sees nothing' % (g, norm(st.value)[:40])),
                               oid='generic:%s:%s' % (q, g))
     ok_note = '%d functions, %d parameters in %d anchored files' % (nfun, npar, len(files))
-    for r in ('R-PARAMUSED', 'R-NOSTATE', 'R-ELEMENTWISE', 'R-CALLED', 'R-ONESHOT', 'R-MODSTATE', 'R-SIBLING', 'R-CLASSSTATE', 'R-NONEGUARD', 'R-SWAP', 'R-STALEVAR', 'R-GUARDOBJ', 'R-FALSYDEFAULT', 'R-ATTRALIAS'):
+    for r in ('R-PARAMUSED', 'R-NOSTATE', 'R-ELEMENTWISE', 'R-CALLED', 'R-ONESHOT', 'R-MODSTATE', 'R-SIBLING', 'R-CLASSSTATE', 'R-NONEGUARD', 'R-SWAP', 'R-STALEVAR', 'R-GUARDOBJ', 'R-FALSYDEFAULT', 'R-ATTRALIAS', 'R-DTYPEFULL'):
         if not any(o['rule'] == r and o['status'] == 'violated' and str(o.get('id', '')).startswith('generic:') for o in ctx.obligations):
             ctx.ok(r, 'generic:%s' % r, 'anchored files of %s' % ctx.prop, ok_note)
     ctx.count('functions under the generic rules', nfun)
